@@ -248,6 +248,7 @@ type Sched struct {
 	// Outcome
 	Deadlock string
 	Runaway  bool
+	passive  int // events that were logged without being scheduling points
 	active   bool
 }
 
@@ -615,7 +616,7 @@ func (s *Sched) Run() {
 			s.Deadlock = s.waitGraph()
 			break
 		}
-		if s.Steps >= s.Cfg.MaxSteps {
+		if s.Steps >= s.Cfg.MaxSteps || s.Runaway {
 			s.Runaway = true
 			break
 		}
@@ -826,6 +827,14 @@ func (s *Sched) Run() {
 					// coarse granularity: field accesses are logged but are not
 					// scheduling points
 					s.log(m.task, m.ekind, m.obj, m.site)
+					s.passive++
+					if s.passive > 1000000 {
+						// a task that goes through a million watched accesses
+						// without reaching a scheduling point does not terminate
+						// in any reasonable sense (work that grows without bound)
+						s.Runaway = true
+						break inner
+					}
 					s.resume(m.task)
 					continue
 				}
